@@ -43,7 +43,7 @@ def pPairs : P (List (Rat × Rat)) := pList (do let x ← pRat; let w ← pRat; 
 /-- roots for selected indices only (`i < m`), as functions for `glTable` -/
 def rootsFor (n : Nat) (idx : List Nat) : Option (List (Nat × Rat × Rat)) :=
   idx.mapM (fun i =>
-    match newtonLoop rnd epsQ n fuelN (cospiD (guessArg n i)) with
+    match newtonRootPP rnd epsQ n fuelN (cospiD (guessArg n i)) with
     | some (z, pp) => some (i, z, pp)
     | none => none)
 
